@@ -174,6 +174,37 @@ fn grid_job<Q: QueueLike>(n: usize, pat: usize) -> Result<JobOut, String> {
     targets.sort();
     targets.dedup();
     let mut fresh = 3_000_000_000u32;
+    // remove (and re-insertion) of the element that sits at an exact heap position right now:
+    // no earlier operation of the block moves it, so the last slots, the first leaf and the
+    // ends of every level are really the addressed positions
+    for round in 0..2 {
+        let mut exact: Vec<usize> = targets.clone();
+        exact.extend([n.saturating_sub(2), n.saturating_sub(3), n / 2 + 1, n / 4, (3 * n) / 4]);
+        for &t in &exact {
+            let (key, cur, pos) = {
+                let s = q.snap();
+                // round 1 counts from the end, so that every run of trailing slots is addressed
+                let t = if round == 0 { t.min(s.heap.len() - 1) } else { s.heap.len() - 1 - t.min(s.heap.len() - 1) };
+                let slot = s.heap[t];
+                (s.slots[slot].0, s.slots[slot].2, t)
+            };
+            let len = q.q_len();
+            reset_calls();
+            let removed = q.q_remove_b(&Key(key));
+            let c = cmp_count();
+            out.measurements += 1;
+            if removed.is_none() {
+                return Err(format!("remove of the element at position {pos} returned None"));
+            }
+            let bound = a * ceil_log2(len) + b;
+            if c > bound {
+                return Err(format!("remove of the element at heap position {pos} of {len} ({}) made {c} comparisons; the logarithmic bound is {bound}", PATTERNS[pat]));
+            }
+            let e = out.max_single.entry("remove (exact heap position)".to_string()).or_insert(0);
+            *e = (*e).max(c);
+            single!("push (re-insert removed item)", q.q_push(Item::new(key, 0), Prio::new(cur)));
+        }
+    }
     for &t in &targets {
         for (pi, &np) in [gmin, gmax, i32::MIN / 2 /* placeholder for "unchanged" */].iter().enumerate() {
             // the element at heap position t right now
